@@ -45,6 +45,88 @@ type C02Case struct {
 	// Huge: a forRange over a collection of Huge.N elements (the for statement is limited to
 	// 10^4 passes by gengine, forRange is not)
 	Huge *C02Huge `json:"huge,omitempty"`
+	// Rebind: see C02Rebind
+	Rebind *C02Rebind `json:"rebind,omitempty"`
+}
+
+// C02Rebind: a local that holds a pointer to an injected struct is bound, used for dotted reads
+// and read-modify-writes, bound to another object and used again.
+type C02Rebind struct {
+	Init [3]int64     `json:"init"`
+	Ops  []C02RebindOp `json:"ops"`
+}
+
+type C02RebindOp struct {
+	Kind string `json:"kind"` // bind | addc | adds | sub | mul | read | cond | loop
+	Obj  int    `json:"obj,omitempty"`
+	K    int64  `json:"k,omitempty"`
+}
+
+type c02Obj struct{ N int64 }
+
+func checkC02Rebind(c *C02Case, x *Ctx) {
+	rb := c.Rebind
+	names := []string{"A", "B", "C"}
+	objs := []*c02Obj{{rb.Init[0]}, {rb.Init[1]}, {rb.Init[2]}}
+	model := []int64{rb.Init[0], rb.Init[1], rb.Init[2]}
+	cur, acc, binds := 0, int64(0), 0
+	var b strings.Builder
+	b.WriteString("rule \"prog\" \"d\" salience 1\nbegin\n  acc = 0\n")
+	for _, op := range rb.Ops {
+		switch op.Kind {
+		case "bind":
+			fmt.Fprintf(&b, "  p = %s\n", names[op.Obj])
+			cur = op.Obj
+			binds++
+		case "addc":
+			fmt.Fprintf(&b, "  p.N += %d\n", op.K)
+			model[cur] += op.K
+		case "adds":
+			fmt.Fprintf(&b, "  p.N = p.N + %d\n", op.K)
+			model[cur] += op.K
+		case "sub":
+			fmt.Fprintf(&b, "  p.N -= %d\n", op.K)
+			model[cur] -= op.K
+		case "mul":
+			fmt.Fprintf(&b, "  p.N *= %d\n", op.K)
+			model[cur] *= op.K
+		case "read":
+			b.WriteString("  acc = acc + p.N\n")
+			acc += model[cur]
+		case "cond":
+			fmt.Fprintf(&b, "  if p.N > %d {\n    acc = acc + 1\n  } else {\n    acc = acc - 1\n  }\n", op.K)
+			if model[cur] > op.K {
+				acc++
+			} else {
+				acc--
+			}
+		case "loop":
+			fmt.Fprintf(&b, "  for i = 0; i < 3; i += 1 {\n    p.N += %d\n    acc = acc + p.N\n  }\n", op.K)
+			for i := 0; i < 3; i++ {
+				model[cur] += op.K
+				acc += model[cur]
+			}
+		}
+	}
+	b.WriteString("  return acc\nend\n")
+	text := b.String()
+	x.Class("pointer-local-rebound")
+	if binds >= 2 {
+		x.NonTrivial()
+	}
+	r, err := buildDSL(text, map[string]interface{}{"A": objs[0], "B": objs[1], "C": objs[2]})
+	if err != nil {
+		x.Violation("compile", "generated text was rejected: %v\n%s", err, text)
+		return
+	}
+	got, returned, gerr, pan := runOne(r, "prog")
+	if pan != "" || gerr != nil || !returned {
+		x.Violation("rebind", "err=%v panic=%q returned=%v\n%s", gerr, truncate(pan, 200), returned, text)
+		return
+	}
+	if fmt.Sprint(got) != fmt.Sprint(acc) || objs[0].N != model[0] || objs[1].N != model[1] || objs[2].N != model[2] {
+		x.Violation("rebind", "a local holding a pointer to an injected struct, re-bound %d times: returned %v, A.N=%d B.N=%d C.N=%d; want %d, %d %d %d\n%s", binds-1, got, objs[0].N, objs[1].N, objs[2].N, acc, model[0], model[1], model[2], text)
+	}
 }
 
 type C02Huge struct {
@@ -847,9 +929,25 @@ func mapOrderFrom(observed []obs.Event) func(loop int, remaining []reflect.Value
 func init() {
 	register(&Prop{
 		ID:   "C02",
-		Rule: "one rule per case: statement trees (depth <= 4, <= 30 statements) over int/bool/string/float locals and an injected world (pointer struct with int64/uint64/float64/string/bool fields, slice, array, string-keyed map; directly injected slice, maps, pointer array): plain and compound assignments to locals, fields and elements, if with 0-3 else-if and optional else (conditions often simultaneously true), for loops with literal bounds <= 5 whose condition / step may be recording functions, forRange over slices, arrays and maps (possibly empty), break/continue under arbitrary if nesting inside loops, return (bare or with value) at the end of any block at any depth, reads of locals assigned only on some path, tr(n) observer calls everywhere; oracle = reference interpreter replaying the same program (map iteration order taken from the observed run): exact observer trace, returned flag and value, error-ness and the complete final host world must agree. 1% of the cases are a forRange over a slice, array, map or slice-valued local of 1000-120000 elements (16383/16384/16385/32768/65537 preferred) with an optional break/return/continue, checked against the directly computed pass count and sum. Conditions are pure expressions or comparisons on a stateful observed counter nx() (every evaluation of a condition is visible in the trace and changes the next one). Non-trivial: the reference execution hit continue in a for, break in an inner loop, a return that skips later statements, an else-if/else branch, a compound assignment on an injected target, or a read of a local assigned in a nested block; distinct by case hash",
+		Rule: "one rule per case: statement trees (depth <= 4, <= 30 statements) over int/bool/string/float locals and an injected world (pointer struct with int64/uint64/float64/string/bool fields, slice, array, string-keyed map; directly injected slice, maps, pointer array): plain and compound assignments to locals, fields and elements, if with 0-3 else-if and optional else (conditions often simultaneously true), for loops with literal bounds <= 5 whose condition / step may be recording functions, forRange over slices, arrays and maps (possibly empty), break/continue under arbitrary if nesting inside loops, return (bare or with value) at the end of any block at any depth, reads of locals assigned only on some path, tr(n) observer calls everywhere; oracle = reference interpreter replaying the same program (map iteration order taken from the observed run): exact observer trace, returned flag and value, error-ness and the complete final host world must agree. 1% of the cases are a forRange over a slice, array, map or slice-valued local of 1000-120000 elements (16383/16384/16385/32768/65537 preferred) with an optional break/return/continue, checked against the directly computed pass count and sum. 3% of the cases bind a local to one of three pointer-injected structs, read and read-modify-write a field through the local (+= -= *=, plain assignment, inside if and for), re-bind the local to another object and go on; the returned accumulator and the three objects are compared with the directly computed values. Conditions are pure expressions or comparisons on a stateful observed counter nx() (every evaluation of a condition is visible in the trace and changes the next one). Non-trivial: the reference execution hit continue in a for, break in an inner loop, a return that skips later statements, an else-if/else branch, a compound assignment on an injected target, or a read of a local assigned in a nested block; distinct by case hash",
 		New:  func() interface{} { return &C02Case{} },
 		Gen: func(t *rapid.T) interface{} {
+			if pct(t, "rebind", 3) {
+				rb := &C02Rebind{}
+				for i := range rb.Init {
+					rb.Init[i] = int64(uni(t, fmt.Sprintf("rebind_init%d", i), -50, 50))
+				}
+				kinds := []string{"bind", "bind", "addc", "adds", "sub", "mul", "read", "read", "cond", "loop"}
+				n := uni(t, "rebind_nops", 4, 14)
+				for i := 0; i < n; i++ {
+					k := kinds[uni(t, fmt.Sprintf("rebind_kind%d", i), 0, len(kinds)-1)]
+					if i == 0 {
+						k = "bind"
+					}
+					rb.Ops = append(rb.Ops, C02RebindOp{Kind: k, Obj: uni(t, fmt.Sprintf("rebind_obj%d", i), 0, 2), K: int64(uni(t, fmt.Sprintf("rebind_k%d", i), -9, 9))})
+				}
+				return &C02Case{Rebind: rb}
+			}
 			if pct(t, "huge_forrange", 1) {
 				n := []int{16383, 16384, 16385, 32768, 65537, 0}[uni(t, "huge_n_kind", 0, 5)]
 				if n == 0 {
@@ -876,6 +974,10 @@ func init() {
 			c := ci.(*C02Case)
 			if c.Huge != nil {
 				checkC02Huge(c, x)
+				return
+			}
+			if c.Rebind != nil {
+				checkC02Rebind(c, x)
 				return
 			}
 			text, _ := dsl.PrintRules([]*dsl.Rule{c.Rule}, c.Lay)
